@@ -196,23 +196,34 @@ func c12Streams(thorough bool) []*c12Stream {
 	type split struct {
 		n     int
 		sizes []int
+		pad   bool
 	}
-	splits := []split{{0, nil}, {1, []int{1}}, {2, []int{1, 1}}, {3, []int{3}}, {3, []int{1, 2}}, {5, []int{2, 3}}, {6, []int{1, 2, 3}}, {4, []int{2, 2}}, {6, []int{2, 2, 2}}}
+	splits := []split{{0, nil, false}, {1, []int{1}, false}, {2, []int{1, 1}, false}, {3, []int{3}, false}, {3, []int{1, 2}, false}, {5, []int{2, 3}, false}, {6, []int{1, 2, 3}, false}, {4, []int{2, 2}, false}, {6, []int{2, 2, 2}, false}}
+	splits = append(splits, split{3, []int{1, 2}, true}, split{0, nil, true})
 	algos := []string{"crc32", "sha256"}
 	if thorough {
-		splits = append(splits, split{12, []int{5, 1, 6}}, split{9, []int{9}}, split{17, []int{16, 1}}, split{4, []int{4}}, split{8, []int{2, 2, 2, 2}})
+		splits = append(splits, split{12, []int{5, 1, 6}, false}, split{9, []int{9}, false}, split{17, []int{16, 1}, false}, split{4, []int{4}, false}, split{8, []int{2, 2, 2, 2}, false}, split{5, []int{2, 3}, true})
 		algos = gw.ChecksumAlgos
 	}
+	defer func() { gw.SizeDigits = 1 }()
 	for _, sp := range splits {
 		payload := Pattern(sp.n, 5)
 		chunks := gw.SplitChunks(payload, sp.sizes)
+		// two of the splits are also encoded with zero-padded chunk sizes ("03", "00"), which is where a size token has a
+		// byte that can be replaced by a sign or a blank without changing its value
+		pad := ""
+		gw.SizeDigits = 1
+		if sp.pad {
+			pad = "-padded"
+			gw.SizeDigits = 2
+		}
 		enc, spans := gw.EncodeSigned(seed, chunks, "")
-		out = append(out, &c12Stream{Name: fmt.Sprintf("signed%v", sp.sizes), Mode: "signed", Payload: payload, Enc: enc, Spans: spans, Signed: seed})
+		out = append(out, &c12Stream{Name: fmt.Sprintf("signed%s%v", pad, sp.sizes), Mode: "signed", Payload: payload, Enc: enc, Spans: spans, Signed: seed})
 		for _, a := range algos {
 			enc, spans := gw.EncodeSigned(seed, chunks, a)
-			out = append(out, &c12Stream{Name: fmt.Sprintf("signed-trailer-%s%v", a, sp.sizes), Mode: "signed-trailer", Algo: a, Payload: payload, Enc: enc, Spans: spans, Signed: seed})
+			out = append(out, &c12Stream{Name: fmt.Sprintf("signed-trailer%s-%s%v", pad, a, sp.sizes), Mode: "signed-trailer", Algo: a, Payload: payload, Enc: enc, Spans: spans, Signed: seed})
 			enc2, spans2 := gw.EncodeUnsigned(chunks, a)
-			out = append(out, &c12Stream{Name: fmt.Sprintf("unsigned-trailer-%s%v", a, sp.sizes), Mode: "unsigned-trailer", Algo: a, Payload: payload, Enc: enc2, Spans: spans2, Signed: seed})
+			out = append(out, &c12Stream{Name: fmt.Sprintf("unsigned-trailer%s-%s%v", pad, a, sp.sizes), Mode: "unsigned-trailer", Algo: a, Payload: payload, Enc: enc2, Spans: spans2, Signed: seed})
 		}
 	}
 	return out
@@ -298,7 +309,7 @@ func (s *c12Stream) replay(steps []c12Step, enc []byte) c12Run {
 }
 
 func C12(r *ck.Run) {
-	r.Rule("for every valid stream of the menu (payload lengths × chunk splits × signed / signed+trailer / unsigned+trailer × checksum algorithms): breadth-first search over the REAL reader object where one transition is one Read(p) with len(p) from a menu and the source handing out any admissible number of bytes (EOF together with the final bytes or in a read of its own), states deduplicated on (source offset, bytes delivered, reflective dump of every reader field incl. hash states) until closure; plus every truncation point and every single-byte substitution (6 representatives per offset) of each stream under whole / 1-byte / 7-byte fragmentation; the destination buffer is one reused, overwritten buffer; plus every interleaving of the Read calls of two readers of two uploads (destination smaller than the chunks); distinct = distinct state, mutated stream or reader pair")
+	r.Rule("for every valid stream of the menu (payload lengths × chunk splits × signed / signed+trailer / unsigned+trailer × checksum algorithms): breadth-first search over the REAL reader object where one transition is one Read(p) with len(p) from a menu and the source handing out any admissible number of bytes (EOF together with the final bytes or in a read of its own), states deduplicated on (source offset, bytes delivered, reflective dump of every reader field incl. hash states) until closure; plus every truncation point and every single-byte substitution (10 representatives per offset, among them sign and blank characters; two splits are also encoded with zero-padded chunk sizes) of each stream under whole / 1-byte / 7-byte fragmentation; the destination buffer is one reused, overwritten buffer; plus every interleaving of the Read calls of two readers of two uploads (destination smaller than the chunks); distinct = distinct state, mutated stream or reader pair")
 	r.Assume("the reader is a deterministic function of its construction arguments and the (len(p), bytes, error) answers of its source")
 	streams := c12Streams(r.Thorough())
 	dests := []int{1, 2, 3, 7, 16, 64, 4096, 32768}
@@ -668,7 +679,7 @@ func c12Mutations(r *ck.Run, s *c12Stream) {
 	// single-byte substitutions
 	for off := 0; off < len(s.Enc); off++ {
 		orig := s.Enc[off]
-		for _, nb := range []byte{orig ^ 1, orig ^ 0x20, '0', 'f', '\n', 0} {
+		for _, nb := range []byte{orig ^ 1, orig ^ 0x20, '0', 'f', '\n', 0, '+', '-', ' ', '\t'} {
 			if nb == orig {
 				continue
 			}
